@@ -215,7 +215,7 @@ func runC17(w *W) {
 	st := &c01State{}
 	scale := 4
 	if w.thorough() {
-		scale = 40
+		scale = 120
 	}
 	w.eachValidDoc(scale, func(g string, doc []byte) { w.c17Judge(st, g, doc, false) })
 	w.eachNDInput(scale, func(g string, in []byte) { w.c17Judge(st, g, in, true) })
